@@ -308,6 +308,13 @@ func c18Judge(w *World, sc string, base, f c18Side) []Violation {
 					only = false
 				}
 			}
+			_, cookieOut := hasPut(o.CookEvents, "rm")
+			if only && cookieOut && len(fAdded) == 0 {
+				// a cookie was handed out whose token was never stored
+				only = false
+				lacking = []string{"rm:added(cookie issued)"}
+				errorish = false
+			}
 			if only && !(o.Step.RM && site == "db.AddRememberToken" && len(fAdded) == 0 && o.CookAfter["rm"] != "" && o.CookAfter["rm"] != o.CookBefore["rm"]) {
 				w.Stats.Reach["c18_remember_middleware_swallowed"]++
 				lacking = nil
